@@ -87,20 +87,26 @@ def dict_readable(v):
 
 def build_model(cells, names=None, default_sheet='Sheet1', build_code=True):
     """cells: {address: python value | '=formula'}; names: {name: target with
-    or without $}.  Constants the dict reader cannot take (None, '',
-    datetime) are installed with set_cell_value after compilation - all
-    through public API."""
+    or without $}.  The model is compiled sheet by sheet with the dict reader
+    (so that unqualified references mean "this sheet" on every sheet).
+    Constants the dict reader cannot take (None, '', datetime) are installed
+    with set_cell_value after compilation - all through public API."""
     mc = ModelCompiler()
-    d = {}
+    per_sheet = {}
     late = {}
     for a, v in cells.items():
+        d = per_sheet.setdefault(a.split('!')[0], {})
         if dict_readable(v):
             d[a] = v
         else:
             d[a] = 0
             late[a] = v
-    model = mc.read_and_parse_dict(
-        d, default_sheet=default_sheet, build_code=False)
+    if not per_sheet:
+        per_sheet[default_sheet] = {}
+    order = sorted(per_sheet, key=lambda s: (s != default_sheet,))
+    for sheet in order:
+        model = mc.read_and_parse_dict(
+            per_sheet[sheet], default_sheet=sheet, build_code=False)
     if names:
         mc.defined_names = dict(names)
         mc.build_defined_names()
@@ -214,12 +220,49 @@ def gen_world(rng, n_inputs=None, n_formulas=None, sheets=None, names=True,
 
     def ref(frm_sheet, a):
         s, c = a.split('!')
-        if s == frm_sheet == 'Sheet1' and not qualify_all:
+        if s == frm_sheet and not qualify_all and rng.random() < 0.85:
             return c
         return a
 
+    copyable = []       # formulas whose text is sheet-relative throughout
+
     ranges_used = {}
-    for _ in range(nf):
+
+    def try_copy():
+        """Same formula text on another sheet (sheet-relative references):
+        what copying a block between sheets produces."""
+        src = rng.choice(copyable)
+        others = [s for s in sheet_list if s != src['sheet']]
+        if not others:
+            return False
+        sheet = rng.choice(others)
+        fa_i = count[sheet]
+        while addr(sheet, fa_i % W[sheet], fa_i // W[sheet]) in reserved:
+            fa_i += 1
+        fa = addr(sheet, fa_i % W[sheet], fa_i // W[sheet])
+        targets = [f'{sheet}!{c}' for c in src['coords']]
+        if fa in targets:
+            return False
+        if any(t in level and level[t] >= max_depth for t in targets):
+            return False
+        got = place(sheet)
+        if got != fa:
+            return False
+        reserved.update(t for t in targets if t not in cells)
+        cells[fa] = src['text']
+        deps[fa] = list(dict.fromkeys(targets))
+        level[fa] = 1 + max([level.get(t, 0) for t in targets] or [0])
+        if src['range']:
+            ranges_used[fa] = [f'{sheet}!{src["range"]}']
+        return True
+
+    made = 0
+    guard = 0
+    while made < nf and guard < nf * 4:
+        guard += 1
+        if copyable and rng.random() < 0.22 and try_copy():
+            made += 1
+            continue
         sheet = rng.choice(sheet_list)
         cands = [a for a in order if level[a] < max_depth]
         # bias to recent cells so that chains get deep
@@ -239,7 +282,7 @@ def gen_world(rng, n_inputs=None, n_formulas=None, sheets=None, names=True,
         if use_range:
             # rectangle on some sheet covering existing cells (sometimes one
             # position beyond -> blank placeholder created by build_ranges)
-            s = rng.choice(sheet_list)
+            s = sheet if rng.random() < 0.6 else rng.choice(sheet_list)
             if count[s] > 0:
                 w = W[s]
                 rows = (count[s] + w - 1) // w
@@ -258,7 +301,8 @@ def gen_world(rng, n_inputs=None, n_formulas=None, sheets=None, names=True,
                     a1 = addr(s, c1, r1).split('!')[1]
                     a2 = addr(s, c2, r2).split('!')[1]
                     rr = f'{a1}:{a2}'
-                    if not (s == sheet == 'Sheet1' and not qualify_all):
+                    if not (s == sheet and not qualify_all
+                            and rng.random() < 0.85):
                         rr = f'{s}!{rr}'
                     rng_ref = (rr, members, f'{s}!{a1}:{a2}')
                     reserved.update(m for m in members if m not in cells)
@@ -269,24 +313,40 @@ def gen_world(rng, n_inputs=None, n_formulas=None, sheets=None, names=True,
             tpl = 'SPY(' + tpl + ')'
         fa = place(sheet)
         sub = {}
+        relative = True
+        coords = []
         for key, val in (('a', a_), ('b', b_), ('c', c_)):
             if '{' + key + '}' in tpl:
                 nm = [n for n, t in wnames.items() if t == val]
                 if nm and rng.random() < 0.5:
                     sub[key] = nm[0]
+                    relative = False
                 else:
                     sub[key] = ref(sheet, val)
+                    if '!' in sub[key]:
+                        relative = False
+                    else:
+                        coords.append(sub[key])
                 used.append(val)
         if rng_ref:
             sub['R'] = rng_ref[0]
             used.extend(rng_ref[1])
             ranges_used[fa] = [rng_ref[2]]
+            if '!' in rng_ref[0]:
+                relative = False
+            else:
+                coords.extend(m.split('!')[1] for m in rng_ref[1])
         cells[fa] = '=' + tpl.format(**sub)
         dl = [u for u in dict.fromkeys(used)]
         deps[fa] = dl
         level[fa] = 1 + max([level.get(u, 0) for u in dl] or [0])
+        if relative and coords:
+            copyable.append({'sheet': sheet, 'text': cells[fa],
+                             'coords': coords,
+                             'range': rng_ref[0] if rng_ref else None})
         if names and name_pool and rng.random() < 0.12:
             wnames[name_pool.pop()] = fa
+        made += 1
 
     wstale = {}
     if stale and rng.random() < 0.5:
